@@ -707,7 +707,7 @@ IB_dealloc(IB* self)
 static int
 IB__init__(IB* self, PyObject* args, PyObject* kwargs)
 {
-    static char* kwlist[] = { "__name__", "__module__", NULL };
+    static char* kwlist[] = { "name", "module", NULL };
     PyObject* module = NULL;
     PyObject* name = NULL;
 
